@@ -297,6 +297,58 @@ fn scenario(s: Arc<S15>, table: Arc<HashMap<u32, Arc<Vec<Option<u64>>>>>, obs: A
             exp
         );
     }
+    // failed operations observe nothing: a write refused by a full fixed slice and a read
+    // that hits the end of a strict stream leave count and totals exactly where they were
+    // (a retry after making room must not count the value twice)
+    {
+        let v0 = (1u64 << all.first().copied().unwrap_or(2)) - 1;
+        macro_rules! failing {
+            ($E:ty) => {{
+                // (never dropped: the drop-time flush of a writer over a full slice panics)
+                let mut writer = std::mem::ManuallyDrop::new(BufBitWriter::<$E, _>::new(MemWordWriterSlice::new(vec![0u64; 1])));
+                let mut ok = 0u64;
+                for _ in 0..200u64 {
+                    let before: CodesStats = *wrapper.stats().lock().unwrap();
+                    // (no flush: the write itself fails when the bit buffer spills into the full slice)
+                    let r = DynamicCodeWrite::write(&*wrapper, &mut *writer, v0);
+                    let after: CodesStats = *wrapper.stats().lock().unwrap();
+                    match r {
+                        Ok(_) => ok += 1,
+                        Err(_) => {
+                            assert!(
+                                after.total == before.total,
+                                "C15.failed_write_counted: a write of {} through the wrapper failed (fixed slice full) but the element count went from {} to {}",
+                                v0,
+                                before.total,
+                                after.total
+                            );
+                            break;
+                        }
+                    }
+                }
+                let _ = ok;
+                let mut reader = BufBitReader::<$E, _>::new(MemWordReader::new_strict(vec![u64::MAX; 1]));
+                for _ in 0..200u64 {
+                    let before: CodesStats = *wrapper.stats().lock().unwrap();
+                    let r = DynamicCodeRead::read(&*wrapper, &mut reader);
+                    let after: CodesStats = *wrapper.stats().lock().unwrap();
+                    if r.is_err() {
+                        assert!(
+                            after.total == before.total,
+                            "C15.failed_read_counted: a read through the wrapper failed (end of a strict stream) but the element count went from {} to {}",
+                            before.total,
+                            after.total
+                        );
+                        break;
+                    }
+                }
+            }};
+        }
+        match s.e {
+            En::BE => failing!(BE),
+            En::LE => failing!(LE),
+        }
+    }
     // record the interleaving (for the distinct-interleavings measure)
     let o = order.lock().unwrap();
     let mut h: u64 = 0xcbf2_9ce4_8422_2325;
